@@ -21,6 +21,11 @@ Node(kind, r) == NodeN(kind, "", r)
 
 \* ---- lexemes ---------------------------------------------------------------
 NumLex(n) == IF n < 0 THEN "-" \o ToString(0 - n) ELSE ToString(n)
+\* a number literal may carry its spelling (leading zeros are legal and still base ten)
+NumLexOf(e) == IF "lex" \in DOMAIN e THEN e.lex ELSE NumLex(e.v)
+NumValOf(e) == IF "lex" \in DOMAIN e
+               THEN (IF SubSeq(e.lex, 1, 1) = "-" THEN 0 - NatOf(SubSeq(e.lex, 2, Len(e.lex)), 1, 0) ELSE NatOf(e.lex, 1, 0))
+               ELSE e.v
 PortionLex(e) == IF "lex" \in DOMAIN e THEN e.lex ELSE ToString(e.n) \o "/" \o ToString(e.d)
 
 \* ---- printers -----------------------------------------------------------
@@ -30,7 +35,7 @@ PE(e) ==
     [] e.k = "acct"  -> Node("AccountLiteral", Tok("@" \o e.v))
     [] e.k = "asset" -> Node("AssetLiteral", Tok(e.v))
     [] e.k = "str"   -> Node("StringLiteral", Tok("\"" \o e.v \o "\""))
-    [] e.k = "num"   -> Node("NumberLiteral", Tok(NumLex(e.v)))
+    [] e.k = "num"   -> Node("NumberLiteral", Tok(NumLexOf(e)))
     [] e.k = "portion" -> Node("RatioLiteral", Tok(PortionLex(e)))
     [] e.k = "mon"   -> Node("MonetaryLiteral", Cat(<<Tok("["), PE(e.asset), PE(e.amt), Tok("]")>>))
     [] e.k = "infix" -> Node("BinaryInfix", Cat(<<PE(e.l), Tok(e.op), PE(e.r)>>))
@@ -77,7 +82,7 @@ GcdS(a, b) == IF b = 0 THEN a ELSE GcdS(b, a % b)
 RECURSIVE FE(_), FS(_), FD(_), FList(_,_,_)
 FE(e) == CASE e.k = "var" -> <<"var", e.name>>
            [] e.k \in {"acct", "asset", "str"} -> <<e.k, e.v>>
-           [] e.k = "num" -> <<"num", ToString(e.v)>>
+           [] e.k = "num" -> <<"num", ToString(NumValOf(e))>>
            [] e.k = "portion" -> LET v == PortionValue(PortionLex(e))  g == GcdS(v.n, v.d) IN
                                  IF g = 0 THEN <<"portion", "0", "0">> ELSE <<"portion", ToString(v.n \div g), ToString(v.d \div g)>>
            [] e.k = "remaining" -> <<"remaining">>
